@@ -183,6 +183,16 @@ class Report:
         for n, s in self.standins.items():
             for x in s["samples"][:2]:
                 samples.append({"bounded_case_of": n, "case": x})
+        # mechanical scan (every report): assumption statements of the sidecar contracts that were loaded by this check - each is a precondition of the
+        # function under contract or an assumed dependency contract (listed under trusted_base / assumptions), never a way to make an obligation pass
+        scan = {}
+        for name, mod in list(sys.modules.items()):
+            if name.startswith("vf.contracts.") and getattr(mod, "__file__", None):
+                try:
+                    src = open(mod.__file__).read()
+                except OSError:
+                    continue
+                scan[name] = {"st.assume": src.count("st.assume("), "Lemma_without_proof": src.count("Lemma(") - src.count("proof=")}
         level = self.level
         if level == "proof" and (n_ob == 0 or n_dis < n_ob):
             level = "other"     # a proof-level claim needs every obligation discharged in this run
@@ -194,6 +204,7 @@ class Report:
                             "shape; X = bounded run-time contract check (never counted as proved)",
             "checker_cmd": f"./check {self.pid} --tier {self.tier}",
             "trusted_base": self.trusted,
+            "assumption_scan": scan,
             "backends_solver_seconds": {k: round(v, 3) for k, v in self.solver_s.items()},
             "functions_under_contract": self.functions,
             "obligation_list": [{k: o[k] for k in ("name", "fn", "status", "backend", "label", "secs")} for o in self.obligations][:400],
